@@ -67,6 +67,17 @@ LineExpAt(k, p) ==
     IN  IF k \notin LineKernels THEN EAny
         ELSE IF n < EffMp(k) THEN ENull
         ELSE LineDef(k, f, lb, n)
+\* one VERY long window (tens of thousands of observations: tick data): the trend family only, where the integers
+\* formed from the observation count grow like n^4
+HInit ==
+    /\ ll \in LineLens /\ w = ll /\ mp = 2 /\ lf = 1 /\ lb = 1
+    /\ xs = <<>> /\ acc = Acc0 /\ mn = <<NULL, NOIDX>> /\ mx = <<NULL, NOIDX>>
+    /\ out = [k \in Kernels |-> <<>>] /\ dfn = [k \in Kernels |-> EAny]
+HSpec == HInit /\ [][UNCHANGED lvars]_lvars
+EmitTrend ==
+    PrintT(<<"REPLAY", ToJson([op |-> "roll1", w |-> w, mp |-> mp, xs |-> LineWin(lf, lb, ll),
+                               exp |-> [k \in RegKernels |-> [p \in 1..ll |-> LineExpAt(k, p)]]])>>)
+
 EmitLine ==
     PrintT(<<"REPLAY", ToJson([op |-> "roll1", w |-> w, mp |-> mp, xs |-> LineWin(lf, lb, ll),
                                exp |-> [k \in Kernels |-> [p \in 1..ll |-> LineExpAt(k, p)]]])>>)
